@@ -1225,7 +1225,15 @@ func (r condition) string() string {
 		pad = ``
 	}
 
-	s := r.kw + pad + r.op.String() + pad + val
+	// a validity closure may vouch for an instance that
+	// never received an operator: there is no operator
+	// text to show then, and nothing to call String on.
+	var opText string
+	if !isNilOperator(r.op) {
+		opText = r.op.String()
+	}
+
+	s := r.kw + pad + opText + pad + val
 	if r.cfg.positive(parens) {
 		s = `(` + pad + s + pad + `)`
 	}
